@@ -347,11 +347,17 @@ Qed.
 
 Theorem gs_parse_wf g spec q : gs_parse g spec = GSPOk q -> gs_wf q = true.
 Proof.
-  intros H. apply gs_parse_ok_facts in H. destruct H as (p0 & rest & HD & (E1 & E2 & E3 & E4 & E5 & E6) & _ & _). unfold gs_wf. rewrite E1, E2, E3, E4, E5.
-  destruct HD as [s0 r -> M -> -> | s0 f r -> M1 M2 -> -> | s0 r -> M1 M2 _ _ -> ->]; cbn.
-  - now rewrite M.
-  - reflexivity.
-  - reflexivity.
+  intros H. apply gs_parse_ok_facts in H.
+  destruct H as (p0 & rest & HD & (E1 & E2 & E3 & E4 & E5 & E6) & [F _] & _).
+  assert (G : p_gtype q = g).
+  { rewrite E1. destruct HD as [s0 r _ _ -> _ | s0 f r _ _ _ -> _ | s0 r _ _ _ _ _ -> _]; reflexivity. }
+  unfold gs_wf. apply andb_true_iff. split.
+  - rewrite E1, E2, E3, E4, E5.
+    destruct HD as [s0 r -> M -> -> | s0 f r -> M1 M2 -> -> | s0 r -> M1 M2 _ _ -> ->]; cbn.
+    + now rewrite M.
+    + reflexivity.
+    + reflexivity.
+  - apply forallb_forall. intros kv HI. rewrite Forall_forall in F. destruct (F kv HI) as [M _]. now rewrite G.
 Qed.
 
 (* ------------------------------------------------------------------ *)
@@ -697,12 +703,21 @@ Proof.
 Qed.
 
 Lemma gs_opt_step_post (o : option (list text)) f (P : gs_step -> Prop) kind :
-  (forall v, gs_post (f v) (fun s => P s /\ gs_step_kind s = kind)) ->
+  (forall v, o = Some v -> gs_post (f v) (fun s => P s /\ gs_step_kind s = kind)) ->
   gs_post (gs_opt_step o f)
           (fun l => Forall P l /\ map gs_step_kind l = match o with Some _ => [kind] | None => [] end).
 Proof.
   intros H. unfold gs_opt_step. destruct o as [v|]; [|cbn; split; [constructor|reflexivity]].
-  eapply gs_post_bind; [apply H|]. intros s [Ps K]. cbn. split; [constructor; [assumption|constructor]|now rewrite K].
+  eapply gs_post_bind; [apply (H v eq_refl)|]. intros s [Ps K]. cbn. split; [constructor; [assumption|constructor]|now rewrite K].
+Qed.
+
+(* `splitedges` is an option of simple graphs only *)
+Lemma gs_wf_splitedges p v :
+  forallb (fun kv => gs_mem (fst kv) (gs_options (p_gtype p))) (p_opts p) = true ->
+  gs_lookup (lit "splitedges") (p_opts p) = Some v -> p_gtype p = GSSimple.
+Proof.
+  intros F L. apply gs_lookup_In in L. rewrite forallb_forall in F. specialize (F _ L). cbn [fst] in F.
+  destruct (p_gtype p); [reflexivity|vm_compute in F; discriminate..].
 Qed.
 
 Lemma gs_step_pre_ord_irrelevant g ord ord' s :
@@ -715,10 +730,12 @@ Theorem gs_obtain_graph_post fo p :
   gs_post (gs_obtain_graph fo p)
           (fun plan => gs_plan_pre (p_gtype p) fo plan /\ map gs_step_kind plan = gs_expected_kinds p).
 Proof.
-  intros WF. unfold gs_obtain_graph, gs_expected_kinds, gs_when.
-  set (g := p_gtype p).
+  intros WF. unfold gs_wf in WF. apply andb_true_iff in WF. destruct WF as [WF WO].
+  pose proof (gs_wf_splitedges p) as HS. specialize (fun v => HS v WO).
+  unfold gs_obtain_graph, gs_expected_kinds, gs_when.
+  remember (p_gtype p) as g eqn:Eg.
   eapply gs_post_bind with (P := gs_call_pre g).
-  { unfold gs_wf in WF. fold g in WF. destruct (p_construction p) as [c|].
+  { destruct (p_construction p) as [c|].
     - destruct (gs_mem c (gs_constructions g)); [|discriminate]. cbn [andb] in WF.
       destruct (p_argskey p) eqn:HK; [|discriminate]. destruct (p_args p) as [l|] eqn:HA; [|discriminate].
       now apply (gs_dispatch_post g p l c).
@@ -733,17 +750,18 @@ Proof.
                                         | _ => []
                                         end).
   { destruct g; try (cbn; split; [constructor|reflexivity]).
-    - apply gs_opt_step_post. intros v. apply gs_modify_plantclique_post.
-    - apply gs_opt_step_post. intros v. apply gs_modify_plantbiclique_post. }
+    - apply gs_opt_step_post. intros v _. apply gs_modify_plantclique_post.
+    - apply gs_opt_step_post. intros v _. apply gs_modify_plantbiclique_post. }
   intros plant [Fp Kp].
   eapply gs_post_bind; [apply (gs_opt_step_post _ _ (gs_step_pre g ord) GKAddEdges)|].
-  { intros v. eapply gs_post_bind; [apply gs_one_nonneg_opt_post|]. intros k [K _]. cbn. split; [assumption|reflexivity]. }
+  { intros v _. eapply gs_post_bind; [apply gs_one_nonneg_opt_post|]. intros k [K _]. cbn. split; [assumption|reflexivity]. }
   intros add [Fa Ka].
   eapply gs_post_bind; [apply (gs_opt_step_post _ _ (gs_step_pre g ord) GKSplitEdges)|].
-  { intros v. eapply gs_post_bind; [apply gs_one_nonneg_opt_post|]. intros k [K _]. cbn. split; [assumption|reflexivity]. }
+  { intros v Ev. eapply gs_post_bind; [apply gs_one_nonneg_opt_post|]. intros k [K _].
+    rewrite (HS v Ev). cbn. split; [assumption|reflexivity]. }
   intros split [Fs Ks].
   eapply gs_post_bind; [apply (gs_opt_step_post _ _ (gs_step_pre g ord) GKSave)|].
-  { intros v. unfold gs_unpack2. destruct v as [|a [|b [|c r]]]; cbn [gs_bind gs_post]; try exact I.
+  { intros v _. unfold gs_unpack2. destruct v as [|a [|b [|c r]]]; cbn [gs_bind gs_post]; try exact I.
     eapply gs_post_weaken; [apply gs_save_format_post|]. intros s [S K]. split; [|assumption].
     destruct s; cbn in *; try discriminate; assumption. }
   intros save [Fv Kv].
@@ -782,8 +800,10 @@ Qed.
 (* the hypothesis of gs_validate_never_crashes is needed: obtain_graph asserts that a construction it does not know is None *)
 Lemma gs_validate_needs_wf :
   gs_validate (0, 0) (mk_gs_parsed GSDag (Some (lit "gnp")) (Some [lit "3"; lit ".5"]) true None None []) = GSVCrash KAssert
-  /\ gs_validate (0, 0) (mk_gs_parsed GSBipartite (Some (lit "shift")) None true None None []) = GSVCrash KType.
-Proof. split; vm_compute; reflexivity. Qed.
+  /\ gs_validate (0, 0) (mk_gs_parsed GSBipartite (Some (lit "shift")) None true None None []) = GSVCrash KType
+  /\ gs_validate (0, 0) (mk_gs_parsed GSBipartite (Some (lit "empty")) (Some [lit "2"; lit "2"]) true None None
+                                      [(lit "splitedges", [lit "0"])]) = GSVCrash KType.
+Proof. repeat split; vm_compute; reflexivity. Qed.
 
 (* ------------------------------------------------------------------ *)
 (* the one guard that is weaker than what the construction needs       *)
